@@ -540,6 +540,42 @@ def stmt_start(st: List[Tok], i: int, lo: int) -> Optional[int]:
     return None
 
 
+def postfix_start(st: List[Tok], dot: int, lo: int) -> Optional[int]:
+    """st[dot] is the `.` of a method call: index of the first token of the receiver expression (a postfix chain of paths, fields,
+    calls, indexings, `?`), or None if the receiver is not of that simple shape"""
+    pos = dot - 1
+    while pos >= lo:
+        t = st[pos]
+        if t.kind == "punct" and t.text == "?":
+            pos -= 1; continue
+        if t.kind == "punct" and t.text in (")", "]"):
+            depth = 0; o = pos
+            while o >= lo:
+                x = st[o]
+                if x.kind == "punct" and x.text in CLOSE: depth += 1
+                elif x.kind == "punct" and x.text in OPEN:
+                    depth -= 1
+                    if depth == 0: break
+                o -= 1
+            if o < lo: return None
+            prev = st[o - 1]
+            if st[o].text == "(" and not (prev.kind == "ident" and prev.text not in ("if", "match", "while", "return", "in", "let", "else")):
+                if prev.kind == "punct" and prev.text == ">": return None     # turbofish call
+                return o                                                       # parenthesised primary expression
+            if st[o].text == "[" and not (prev.kind == "ident" or (prev.kind == "punct" and prev.text in (")", "]"))):
+                return None
+            pos = o - 1
+            continue
+        if t.kind in ("ident", "lit"):
+            if t.kind == "ident" and t.text in ("if", "match", "while", "return", "in", "let", "else", "mut", "move", "as"): return None
+            p = st[pos - 1]
+            if p.kind == "punct" and p.text in (".", "::"):
+                pos -= 2; continue
+            return pos
+        return None
+    return None
+
+
 def param_names(st: List[Tok], fp: "FnParts") -> List[Optional[str]]:
     """names of the parameters of a fn (None for self / non-identifier patterns), in order"""
     out: List[Optional[str]] = []
